@@ -22,7 +22,7 @@ echo "== test suite with the change" >>$LOG
 if cargo test --workspace --no-fail-fast --offline >>$LOG.tests 2>&1; then echo "tests: PASS" >>$LOG; T=pass; else echo "tests: FAIL" >>$LOG; grep -E "^test .* FAILED|panicked" $LOG.tests | head -5 >>$LOG; T=fail; fi
 # demo with the change: point its path deps at this worktree
 D=$WT/_demo; rm -rf $D; cp -r $OUT/demo$K $D; rm -rf $D/target
-grep -rlE "/tmp/mut2?/$PID/" $D --include=Cargo.toml --include=*.rs --include=*.json 2>/dev/null | xargs -r sed -i -E "s#/tmp/mut2?/$PID/#$WT/#g"
+grep -rlE "/tmp/mut[0-9]?/$PID([/\"]|\$)" $D --include=Cargo.toml --include=*.rs --include=*.json --include=*.sh 2>/dev/null | xargs -r sed -i -E "s#/tmp/mut[0-9]?/$PID([/\"]|\$)#$WT\\1#g"
 cp $WT/Cargo.lock $D/Cargo.lock 2>/dev/null
 ( cd $D && timeout 900 cargo run --offline >>$LOG.demo_with 2>&1 ); W=$?
 echo "demo with change: exit=$W $(grep -o 'PASS\|FAIL' $LOG.demo_with | tail -1)" >>$LOG
